@@ -293,14 +293,14 @@ func runCase(w *world) ([]obsT, error) {
 						return nil, err
 					}
 					o.Lt = w.ltObs(lb)
-					rcv.V.Receive(raw.Topic, lb, env.Peers[e.From], env.Peers[e.Pub])
+					o.Alive, o.Panic = protect(func() { rcv.V.Receive(raw.Topic, lb, env.Peers[e.From], env.Peers[e.Pub]) })
 				case broadcast.VerifBlockTopic:
 					o.Sent = "full"
 					b := &types.Block{}
 					if err := types.Decode(wire, b); err != nil {
 						return nil, err
 					}
-					rcv.V.Receive(raw.Topic, b, env.Peers[e.From], env.Peers[e.Pub])
+					o.Alive, o.Panic = protect(func() { rcv.V.Receive(raw.Topic, b, env.Peers[e.From], env.Peers[e.Pub]) })
 				default:
 					return nil, fmt.Errorf("unexpected topic %q", raw.Topic)
 				}
